@@ -16,7 +16,8 @@
    grp_for .. o          : the input rows output row o stands for
    KNOWN FINDING: AVG is a running rounded average; the full statement is refuted below. *)
 From Coq Require Import ZArith String Bool List Permutation.
-From Mkdb Require Import Model.Select Spec.SelectSpec Proofs.SelectAggCols Proofs.SelectC07 Proofs.SelectC07Main.
+From Mkdb Require Import Model.Select Spec.SelectSpec Proofs.SelectAggCols Proofs.SelectC07 Proofs.SelectC07Main
+     Proofs.SelectGroupKey.
 Import ListNotations.
 
 Definition C07_full_statement : Prop :=
@@ -88,6 +89,20 @@ Theorem C07_checker_complete : forall sl gb fs base out, AggSpec sl gb fs base o
 Proof. intros. apply check_agg_iff. assumption. Qed.
 Print Assumptions C07_checker_sound.
 Print Assumptions C07_checker_complete.
+
+(* the model keys groups by the list of grouping values, the code by the concatenation of
+   Sprintf("%#v,", v): that string determines the list, for the quoting of strings modelled in
+   Proofs/SelectGroupKey.v (quote = strconv.Quote on printable ASCII) and any rendering of
+   integers that is injective, comma-free and starts with a digit or '-' *)
+Theorem C07_group_key_injective : forall render_int : Z -> string,
+  (forall x y, render_int x = render_int y -> x = y) ->
+  (forall x, no_comma (render_int x)) ->
+  (forall x, match render_int x with
+             | String c _ => c <> dq /\ c <> "t"%char /\ c <> "f"%char /\ c <> "<"%char
+             | EmptyString => False end) ->
+  forall vs vs', key_string (render render_int) vs = key_string (render render_int) vs' -> vs = vs'.
+Proof. exact group_key_injective. Qed.
+Print Assumptions C07_group_key_injective.
 
 (* ---- the refutation: AVG over [1;0;0] is 1, the mean is 1/3 ---- *)
 Open Scope string_scope.
